@@ -57,9 +57,13 @@ fn seq_violation(e: String) -> Violation {
 }
 
 fn run_and_check(conv: &Conv, st: &mut Stats, expect_pkts: Option<(usize, usize)>) -> Result<(), Violation> {
+    run_and_check_cuts(conv, st, expect_pkts, vec![])
+}
+
+fn run_and_check_cuts(conv: &Conv, st: &mut Stats, expect_pkts: Option<(usize, usize)>, cuts: Vec<usize>) -> Result<(), Violation> {
     let s = conv.stream();
     let stream = Arc::new(s.bytes);
-    let mut sim = sim_for(&stream, vec![]);
+    let mut sim = sim_for(&stream, cuts);
     sim.log_ops = false;
     let o = run_conn(sim, ConnCfg::new(rows_behave()));
     if let ConnResult::Panic(l, m) = &o.res {
@@ -167,8 +171,8 @@ struct Fragmented {
     nfrag: Vec<usize>,
 }
 impl Fragmented {
-    fn conv(&self, idx: u64) -> (Conv, u8, usize) {
-        let d = digits(idx, &[self.firsts.len() as u64, self.nfrag.len() as u64]);
+    fn conv(&self, idx: u64) -> (Conv, u8, usize, Vec<usize>) {
+        let d = digits(idx, &[self.firsts.len() as u64, self.nfrag.len() as u64, 8]);
         let first = self.firsts[d[0] as usize];
         let nf = self.nfrag[d[1] as usize];
         // payload of (nf-1)*MAXP + 10 bytes => nf packets
@@ -176,7 +180,12 @@ impl Fragmented {
         let mut text = b"r=300 ".to_vec();
         text.resize(total - 1, b'x');
         let cmds = vec![q(&text).seq(first), ping().seq(first.wrapping_add(100))];
-        (Conv::new(cmds), first, nf)
+        let conv = Conv::new(cmds);
+        // arrival schedule: which fragment boundaries coincide with the end of a read
+        let s = conv.stream();
+        let bounds: Vec<usize> = s.headers.iter().copied().filter(|h| *h > s.ends[0] && *h < s.ends[1]).collect();
+        let cuts = bounds.iter().enumerate().filter(|(i, _)| d[2] & (1 << i) != 0).map(|x| *x.1).collect();
+        (conv, first, nf, cuts)
     }
 }
 impl Family for Fragmented {
@@ -184,20 +193,29 @@ impl Family for Fragmented {
         "fragmented-requests".into()
     }
     fn len(&self) -> u64 {
-        (self.firsts.len() * self.nfrag.len()) as u64
+        (self.firsts.len() * self.nfrag.len() * 8) as u64
     }
     fn max_threads(&self) -> Option<usize> {
         Some(8)
     }
     fn run(&self, idx: u64, st: &mut Stats) -> Result<(), Violation> {
-        let (conv, _, _) = self.conv(idx);
+        let d = digits(idx, &[self.firsts.len() as u64, self.nfrag.len() as u64, 8]);
+        let nf = self.nfrag[d[1] as usize];
+        if d[2] >= (1 << (nf - 1)) {
+            st.skipped += 1; // no such boundary: same schedule as a smaller mask
+            return Ok(());
+        }
+        let (conv, _, _, cuts) = self.conv(idx);
         st.nontrivial += 1;
         st.bump("fragmented_requests");
-        run_and_check(&conv, st, Some((0, 304)))
+        if nf >= 3 {
+            st.bump("requests_of_three_or_more_packets");
+        }
+        run_and_check_cuts(&conv, st, Some((0, 304)), cuts)
     }
     fn describe(&self, idx: u64) -> J {
-        let (_, first, nf) = self.conv(idx);
-        json!({"first_fragment_sequence_id": first, "fragments": nf, "response_packets": 304})
+        let (_, first, nf, cuts) = self.conv(idx);
+        json!({"first_fragment_sequence_id": first, "fragments": nf, "response_packets": 304, "reads_end_at_fragment_boundaries": cuts})
     }
 }
 
@@ -292,6 +310,70 @@ impl Family for Bulky {
     }
 }
 
+
+/// every kind of command (those the shim answers and those the library answers itself) after
+/// every kind of previous exchange, with request ids around the wrap: the reply must start one
+/// above *this* request's id whatever the previous exchange left in the counter
+struct KindHistory;
+impl KindHistory {
+    fn prevs() -> Vec<(&'static str, Vec<ClientCmd>)> {
+        vec![
+            ("nothing", vec![]),
+            ("query->OK", vec![q(b"ok")]),
+            ("query->3 rows", vec![q(b"r=3")]),
+            ("query->300 rows", vec![q(b"r=300")]),
+            ("prepare", vec![ClientCmd::new(with_byte(COM_STMT_PREPARE, b"r=2"))]),
+            ("execute->2 rows", vec![ClientCmd::new(cmd_execute(1, 0, 1, &[]))]),
+            ("close of another id (no reply)", vec![ClientCmd::new(cmd_close(77))]),
+            ("ping", vec![ping()]),
+            ("init db", vec![ClientCmd::new(with_byte(COM_INIT_DB, b"db"))]),
+            ("USE query", vec![q(b"USE db")]),
+            ("field list", vec![ClientCmd::new(with_byte(COM_FIELD_LIST, b"t\0"))]),
+            ("SELECT @@ probe", vec![q(b"SELECT @@max_allowed_packet")]),
+            ("two exchanges", vec![q(b"r=5"), ping()]),
+        ]
+    }
+    fn curs() -> Vec<(&'static str, ClientCmd)> {
+        Self::prevs().into_iter().filter(|(_, v)| v.len() == 1).map(|(n, mut v)| (n, v.pop().unwrap())).collect()
+    }
+    const IDS: [u8; 6] = [0, 1, 42, 127, 254, 255];
+    fn conv(idx: u64) -> (Conv, String) {
+        let prevs = Self::prevs();
+        let curs = Self::curs();
+        let d = digits(idx, &[prevs.len() as u64, curs.len() as u64, Self::IDS.len() as u64]);
+        let (pn, pv) = &prevs[d[0] as usize];
+        let (cn, cur) = &curs[d[1] as usize];
+        let id = Self::IDS[d[2] as usize];
+        let mut cmds = vec![ClientCmd::new(with_byte(COM_STMT_PREPARE, b"r=2")).seq(9)];
+        for c in pv {
+            cmds.push(c.clone().seq(7));
+        }
+        cmds.push(cur.clone().seq(id));
+        cmds.push(ping().seq(100));
+        (Conv::new(cmds), format!("after {}: {} with request id {}", pn, cn, id))
+    }
+}
+impl Family for KindHistory {
+    fn name(&self) -> String {
+        "command-kind-x-previous-exchange".into()
+    }
+    fn len(&self) -> u64 {
+        (Self::prevs().len() * Self::curs().len() * Self::IDS.len()) as u64
+    }
+    fn run(&self, idx: u64, st: &mut Stats) -> Result<(), Violation> {
+        let (conv, what) = Self::conv(idx);
+        st.nontrivial += 1;
+        st.bump("kind_history_cases");
+        run_and_check(&conv, st, None).map_err(|mut v| {
+            v.msg = format!("{}: {}", what, v.msg);
+            v
+        })
+    }
+    fn describe(&self, idx: u64) -> J {
+        json!(Self::conv(idx).1)
+    }
+}
+
 pub fn build(quick: bool) -> Check {
     let all_ids: Vec<u8> = (0..=255u8).collect();
     let all_lens: Vec<usize> = std::iter::once(1).chain(4..=520).collect();
@@ -318,9 +400,10 @@ pub fn build(quick: bool) -> Check {
         }));
     }
     families.push(Box::new(HsIds));
+    families.push(Box::new(KindHistory));
     families.push(Box::new(Fragmented {
-        firsts: if quick { vec![0, 254, 255] } else { vec![0, 1, 253, 254, 255] },
-        nfrag: if quick { vec![2] } else { vec![2, 3] },
+        firsts: if quick { vec![0, 254] } else { vec![0, 1, 253, 254, 255] },
+        nfrag: if quick { vec![2, 3] } else { vec![2, 3, 4] },
     }));
     families.push(Box::new(Bulky));
     families.push(Box::new(LargeResponse {
@@ -330,12 +413,12 @@ pub fn build(quick: bool) -> Check {
     Check {
         id: "C05",
         level: "model_checking",
-        rule: "request sequence id x response length (1 and 4..520 packets, text and binary), each followed by a second command with an unrelated id; handshake responses with every id; 2- and 3-fragment requests starting at ids around the wrap; responses whose single row spans 2..4 maximal packets; responses of 40 KiB..1 MiB in 5..2000 packets. Oracle: packet i of a reply carries (last request id + 1 + i) mod 256. Non-trivial = request id != 0 (the only id the test clients use).".into(),
+        rule: "every command kind after every kind of previous exchange x request ids {0,1,42,127,254,255}; request sequence id x response length (1 and 4..520 packets, text and binary), each followed by a second command with an unrelated id; handshake responses with every id; 2-, 3- (thorough: 4-) fragment requests starting at ids around the wrap, with reads ending at every subset of the fragment boundaries; responses whose single row spans 2..4 maximal packets; responses of 40 KiB..1 MiB in 5..2000 packets. Oracle: packet i of a reply carries (last request id + 1 + i) mod 256. Non-trivial = request id != 0 (the only id the test clients use).".into(),
         assumptions: vec!["sequence ids of server packets are read by the independent framer (refwire)".into()],
         bounds: json!({"max_response_packets": 520, "fragments": if quick {2} else {3}}),
         exhaustive: true,
         caps_hit: vec![],
         families,
-        required: vec!["request_id_255", "replies_wrapping_past_255", "fragmented_requests", "large_response_messages", "bulky_responses"],
+        required: vec!["requests_of_three_or_more_packets", "kind_history_cases", "request_id_255", "replies_wrapping_past_255", "fragmented_requests", "large_response_messages", "bulky_responses"],
     }
 }
